@@ -75,6 +75,14 @@ def _resolve_any(m, mod, f, call):
     return None
 
 
+# wrapping calls that deliberately leave a shared parameter to the callee's default -- (caller, callee, parameter): reason
+NOT_FORWARDED = {
+    ('DTWSettings.__init__', 'inner_dist_fns', 'use_ndim'): 'only the third member (inner_val, the scalar transform of the settings) is used; it does not depend on use_ndim',
+    ('dba_loop', 'dba', 'nb_initial_samples'): 'c is not None at these calls (set by get_good_c above), so dba never samples an initial average',
+    ('SubsequenceAlignment.__init__', 'DTWSettings.__init__', 'use_c'): 'use_c is stored on the object and selects the engine in align(); the settings object is engine-independent',
+}
+
+
 def rule_delegation(ctx, m, modules, floor=None):
     """(1) at every `return K(...)` whose K resolves inside the package: each wrapper parameter that is also an
     explicit parameter of K reaches K (or is overridden by a constant)."""
@@ -85,7 +93,24 @@ def rule_delegation(ctx, m, modules, floor=None):
             wparams = [p for p in f.args + f.kwonly if p not in ('self', 'cls')]
             if not wparams and not f.kwarg:
                 continue
-            for s, call in _delegations(f):
+            deleg = list(_delegations(f))
+            dids = {id(c) for _, c in deleg}
+            # (1c) a function that receives its options as **kwargs passes a ** mapping (or an explicit selection of keywords) to every
+            # in-package callee that takes its options as **kwargs; otherwise that callee silently runs with default settings
+            if f.kwarg:
+                for s, call in calls_in(f.body):
+                    r = _resolve_any(m, mod, f, call)
+                    if r is None or r[1] is f or not r[1].kwarg:
+                        continue
+                    has_d = any(k is None for k, _ in call[3])
+                    has_kw = any(k is not None for k, _ in call[3])
+                    n += 1
+                    ctx.check(has_d or has_kw, 'R-FWD', mod.path, q, 'options to %s' % dotted(call[1]),
+                              '%s receives its options as **%s, but calls %s without any ** mapping or keyword: the callee runs with default settings '
+                              '(window, penalty, psi, ... are dropped)' % (q, f.kwarg, r[1].qual), s.line)
+            # (1b) any other in-package call that shares two or more parameter names with its caller is a wrapping call as well
+            inner = [(s, c) for s, c in calls_in(f.body) if id(c) not in dids]
+            for s, call in deleg + inner:
                 r = _resolve_any(m, mod, f, call)
                 if r is None:
                     continue
@@ -96,8 +121,9 @@ def rule_delegation(ctx, m, modules, floor=None):
                 if bound and tparams:
                     tparams = tparams[1:]
                 common = [p for p in wparams if p in tparams]
-                if not common:
+                if not common or (id(call) not in dids and len(common) < 2):
                     continue
+                common = [p for p in common if (q, target.qual, p) not in NOT_FORWARDED]
                 mapping, has_star, dstars = bind_args(target, bound, call)
                 open_dstar = False
                 dkeys = set()
